@@ -53,6 +53,8 @@ func main() {
 		err = genScanDecode(os.Args[2], os.Args[3])
 	case "register":
 		err = genRegister(os.Args[2], os.Args[3])
+	case "awaitrun":
+		err = genAwaitRun(os.Args[2], os.Args[3])
 	case "grpcwarmup":
 		err = genGrpcWarmUp(os.Args[2], os.Args[3])
 	default:
